@@ -12,6 +12,7 @@ import (
 	"strings"
 	"sync"
 
+	"github.com/alibaba/RedisShake/pkg/redis"
 	conf "github.com/alibaba/RedisShake/redis-shake/configure"
 	"github.com/alibaba/RedisShake/redis-shake/filter"
 )
@@ -81,6 +82,41 @@ func kfRun(in []byte) (interface{}, error) {
 		out, drop = filter.HandleFilterKeyWithCommand(cmd, cp)
 		return
 	}
+	// the command as it arrives from the source: the name in the case the client used (a master propagates
+	// commands verbatim; clients conventionally send upper case), through the codec and ParseArgs - the
+	// path of parseSourceCommand - and only then through the key filter
+	wire := func(name string, args [][]byte) (out [][]byte, drop bool, pan string) {
+		defer func() {
+			if r := recover(); r != nil {
+				pan = fmt.Sprint(r)
+			}
+		}()
+		arr := redis.NewArray()
+		arr.AppendBulkBytes([]byte(name))
+		for _, a := range args {
+			arr.AppendBulkBytes(append([]byte(nil), a...))
+		}
+		raw, err := redis.EncodeToBytes(arr)
+		if err != nil {
+			return nil, false, "encode: " + err.Error()
+		}
+		resp, err := redis.DecodeFromBytes(raw)
+		if err != nil {
+			return nil, false, "decode: " + err.Error()
+		}
+		cmd, argv, err := redis.ParseArgs(resp)
+		if err != nil {
+			return nil, false, "ParseArgs: " + err.Error()
+		}
+		out, drop = filter.HandleFilterKeyWithCommand(cmd, argv)
+		return
+	}
+	mixed := func(s string) string { // Zadd, Sinterstore: first letter upper case
+		if s == "" {
+			return s
+		}
+		return strings.ToUpper(s[:1]) + s[1:]
+	}
 	render := func(a [][]byte) string {
 		s := make([]string, len(a))
 		for i := range a {
@@ -130,6 +166,24 @@ func kfRun(in []byte) (interface{}, error) {
 					res.Mismatches = append(res.Mismatches, Mismatch{Case: ci, Kind: "L1",
 						Detail: fmt.Sprintf("%s %s (filter %s): %s", cmd, render(args), mode, bad),
 						Extra:  map[string]interface{}{"cmd": cmd, "cls": c.Cls, "n": c.N, "pass": c.Pass, "mode": mode}})
+				}
+				for _, name := range []string{strings.ToUpper(cmd), mixed(cmd)} {
+					got, drop, pan := wire(name, args)
+					res.Evaluations++
+					bad := ""
+					switch {
+					case pan != "":
+						bad = "panic / error: " + pan
+					case drop != wantDrop:
+						bad = fmt.Sprintf("dropped=%v, contract says dropped=%v", drop, wantDrop)
+					case !drop && render(got) != render(want):
+						bad = fmt.Sprintf("forwarded [%s], contract says [%s]", render(got), render(want))
+					}
+					if bad != "" && len(res.Mismatches) < 400 {
+						res.Mismatches = append(res.Mismatches, Mismatch{Case: ci, Kind: "L1",
+							Detail: fmt.Sprintf("%s %s as received from the source (codec, ParseArgs, filter %s): %s", name, render(args), mode, bad),
+							Extra:  map[string]interface{}{"cmd": cmd, "cls": c.Cls, "n": c.N, "pass": c.Pass, "mode": mode + "-wire"}})
+					}
 				}
 			}
 		}
